@@ -3,6 +3,8 @@
 // generateBSplines<p>, generateZerothOrderSplines, Grid::findElement, applyRecursionRelation<k>, X<1>, scalar operators,
 // OperatorSum/ScalarMultiplication transforms, Spline +=, cross-order operator=, free function generateBSplines<p>(knots).
 #include "../harness.h"
+#include <map>
+#include <tuple>
 using namespace hx;
 #ifndef MAXP
 #define MAXP 3
@@ -13,22 +15,38 @@ using namespace hx;
 
 // Cox-de Boor recursion evaluated at symbolic x for x inside grid interval gl (between distinct values gl and gl+1);
 // terms with a zero-width denominator are dropped. cls[k] = index of the distinct value of knot k.
+// (memoised per case on (i, p, gl): the recursion tree has 2^p leaves)
+static std::map<std::tuple<size_t, size_t, int>, Real> &refmemo() {
+  static std::map<std::tuple<size_t, size_t, int>, Real> m;
+  return m;
+}
+static Real refB(const std::vector<Real> &t, const std::vector<int> &cls, size_t i, size_t p, int gl, const Real &x);
+static Real refB_m(const std::vector<Real> &t, const std::vector<int> &cls, size_t i, size_t p, int gl, const Real &x) {
+  auto key = std::make_tuple(i, p, gl);
+  auto it = refmemo().find(key);
+  if (it != refmemo().end()) return it->second;
+  Real r = refB(t, cls, i, p, gl, x);
+  refmemo().emplace(key, r);
+  return r;
+}
 static Real refB(const std::vector<Real> &t, const std::vector<int> &cls, size_t i, size_t p, int gl, const Real &x) {
   if (p == 0) return Real((cls[i] != cls[i + 1] && cls[i] == gl) ? 1 : 0);
   Real r(0);
-  if (cls[i + p] != cls[i]) r = r + (x - t[i]) / (t[i + p] - t[i]) * refB(t, cls, i, p - 1, gl, x);
-  if (cls[i + p + 1] != cls[i + 1]) r = r + (t[i + p + 1] - x) / (t[i + p + 1] - t[i + 1]) * refB(t, cls, i + 1, p - 1, gl, x);
+  if (cls[i + p] != cls[i]) r = r + (x - t[i]) / (t[i + p] - t[i]) * refB_m(t, cls, i, p - 1, gl, x);
+  if (cls[i + p + 1] != cls[i + 1]) r = r + (t[i + p + 1] - x) / (t[i + p + 1] - t[i + 1]) * refB_m(t, cls, i + 1, p - 1, gl, x);
   return r;
 }
 template <size_t p>
 void gen_case(std::vector<size_t> mult) {
   auto &E = Engine::get();
+  refmemo().clear();
   size_t c = mult.size(), m = 0;
   for (auto q : mult) m += q;
 #ifdef FIXED_KNOTS
   // high orders: distinct knot values are fixed irregular rationals (a symbolic knot raised to the 10th power is out of
   // reach for nlsat); x, and therefore every polynomial identity, stays symbolic
-  static const long long NUM[] = {-7, -1, 0, 2, 1, 9, 3, 11, 7, 8, 10, 45, 13, 29, 17}, DEN[] = {3, 2, 1, 5, 1, 4, 1, 2, 1, 1, 1, 4, 1, 2, 1};
+  static const long long NUM[] = {-7, -1, 0, 2, 1, 9, 3, 11, 7, 8, 10, 45, 13, 29, 17, 37, 20, 64, 22, 91}, DEN[] = {3, 2, 1, 5, 1, 4, 1, 2, 1, 1, 1, 4, 1, 2, 1, 2, 1, 3, 1, 4};
+  if (c > 20) throw std::logic_error("20 fixed knot values");
   std::vector<Real> v;
   for (size_t j = 0; j < c; j++) v.push_back(Real::frac(NUM[j], DEN[j]));
 #else
@@ -178,4 +196,38 @@ void add(std::vector<Case> &cases) {
   }
   if constexpr (p > MINP) add<p - 1>(cases);
 }
+#ifdef SPARSE
+// sparse high orders and long knot vectors on fixed knot values: simple knots, clamped ends, one interior double knot
+template <size_t p>
+void add_sparse(std::vector<Case> &cases, size_t mmax) {
+  auto push = [&](std::vector<size_t> mult) {
+    std::string id = "gen-sparse/p" + std::to_string(p) + "/mult";
+    for (auto q : mult) id += std::to_string(q) + ".";
+    cases.push_back({id, [=] { gen_case<p>(mult); }});
+  };
+  for (size_t m = p + 2; m <= mmax; m += (mmax - p - 2 > 2 ? (mmax - p - 2) / 2 : 1)) {
+    push(std::vector<size_t>(m, 1));
+    if (m <= 19) { std::vector<size_t> d(m - 1, 1); d[(m - 1) / 2] = 2; push(d); }
+  }
+  push({p + 1, 1, 1, p + 1});
+  push({p + 1, 2, p + 1});
+}
+void hx_cases(std::vector<Case> &cases) {
+  add_sparse<1>(cases, 18);
+  add_sparse<3>(cases, 18);
+  add_sparse<8>(cases, 12);
+  add_sparse<11>(cases, 14);
+  add_sparse<12>(cases, 15);
+  add_sparse<13>(cases, 15);
+#ifdef SPARSE_MORE
+  add_sparse<2>(cases, 20);
+  add_sparse<5>(cases, 20);
+  add_sparse<9>(cases, 13);
+  add_sparse<14>(cases, 17);
+  add_sparse<15>(cases, 18);
+  add_sparse<16>(cases, 18);
+#endif
+}
+#else
 void hx_cases(std::vector<Case> &cases) { add<MAXP>(cases); }
+#endif
